@@ -175,7 +175,7 @@ def check_packet_copy(rep, prog):
 
 
 # ------------------------------------------------------------------------------------------------ C02.2 (nothing hashed changes after hashdata: aliasing)
-MUTABLE_CONTAINERS = ('list', 'dict', 'set')
+MUTABLE_CONTAINERS = ('list', 'dict', 'set', 'bytearray')      # bytes / str / int / enum members are immutable
 
 
 def _caller_object(text, kwname, s):
@@ -201,7 +201,8 @@ def check_option_aliasing(rep, prog):
     """A subpacket filed in the hashed area must not keep a reference to a mutable container the caller still owns: editing the
     caller's list after sign / certify / bind would change the already-signed hashed area (stale lengths, a signature that no
     longer verifies).  For every addnew option whose value IS the caller's object, the setter overloads for mutable containers
-    must store a copy or a conversion (list(v), set(v), a comprehension, ...), never the parameter itself."""
+    (list, dict, set, bytearray) must store a copy or a conversion (list(v), set(v), bytearray(v), a comprehension, ...), never
+    the parameter itself."""
     sigmod = prog.module('pgpy.packet.subpackets.signature')
     fed = {}            # (class name, option) -> where
     for meth in ('sign', 'certify', 'revoke', 'revoker', 'bind', '_sign'):
